@@ -18,6 +18,10 @@ CLAIMED = {
   text="Decides over all 1100+ module functions reachable (VTA call graph, module-restricted) from every Msg/ABCI/ante/gov/wasm/hook entry point: no environment, wall-clock, randomness or runtime-state read, go statement or select influences execution (values feeding only logging are accepted); every production map range is classified (order-insensitive / sorted-before-use with a comparator that breaks ties on the map key / justified exemption) and early exits, last-writer-wins, float accumulation and state-mutating calls in map order are rejected; no store on a runtime or query path writes a package variable or a wiring-time (long-lived) object through a pointer. NOT decided: nondeterminism inside SDK / CometBFT / wasm, float behaviour across architectures, store iteration order.",
   technique="call-graph reachability of forbidden sources + use-only-in-logging dataflow + map-range effect classification on SSA natural loops + long-lived-object store check",
   ref="C08"),
+ "C09": dict(
+  text="Decides for the 18 AppModule Begin/EndBlock methods and every module function reachable from them without crossing a recovering frame (defer-recover, whoops.Try): each method returns only the nil error (one exemption with a checked side obligation); every explicit panic, panicking SDK conversion or division (Int.Int64/Uint64, MustFloat64, Quo*/Mod by a possibly-zero divisor, Must*/whoops.Assert), single-result type assertion, integer division by a non-constant, parallel-slice index and decremented slice index is dominated by the matching guard, auto-accepted (codec round trip, constant arguments) or individually triaged with a reason; unknown sites fail; the skyway recover frames are installed first. NOT decided: nil dereferences, general index-out-of-range, panics inside SDK callees, states unreachable through transactions.",
+  technique="call-graph reachability with recover-frame cut + may-panic site enumeration + dominator guard matching + frozen triage table",
+  ref="C09"),
 }
 props = [json.loads(l) for l in open(os.path.join(ROOT, "properties.jsonl"))]
 PENDING = "structural rules designed in DESIGN.md but not yet built in this checkout"
